@@ -47,11 +47,14 @@ func c07Prelude() string {
 	sb.WriteString("vmone = {1: 1, 2: 2, 3: 3, 4: 4, 5: 5, 6: 6}; del(vmone[1]); del(vmone[2]); del(vmone[3]); del(vmone[4]); del(vmone[5])\n")
 	sb.WriteString("vmdup = {1: 1, 1: 2, 1: 3, 1: 4, 1: 5, 1: 6}\n")
 	sb.WriteString("vaempty = [1, 2, 3, 4, 5, 6, 7, 8, 9][0:0]\n")
+	// small maps holding a large array / a function in their last entry (a prefix slice drops that entry)
+	sb.WriteString("vmsb = {\"a\": 1, \"b\": [1, 2, 3, 4, 5, 6, 7, 8, 9]}\n")
+	sb.WriteString("vmsf = {1: 1, 2: x => x}\n")
 	return sb.String()
 }
 
 func c07Names() []string {
-	names := []string{"vnamed", "vmdel", "vmshrunk", "vaslice", "vmempty", "vmone", "vmdup", "vaempty"}
+	names := []string{"vnamed", "vmdel", "vmshrunk", "vaslice", "vmempty", "vmone", "vmdup", "vaempty", "vmsb", "vmsf"}
 	for _, u := range c07Universe {
 		names = append(names, u.name)
 	}
@@ -169,7 +172,7 @@ func runC07(c *core.Ctx) {
 		for _, f := range []string{"-%s", "!%s", "+%s", "~%s", "^%s", "++%s", "--%s", "%s++", "%s--", "if %s { 1 }", "for %s { break }", "for v = %s { break }", "for v = %s { v }", "for %s = 3 { }",
 			"del(%s)", "del(%s.k)", "del([%s])", "del(%s())", "%s.k", "%s.k = 1", "%s()", "%s(1)", "%s(1, 2)", "[%s, %s]", "{%s: 1}", "{1: %s}", "{%s: %s}", "return %s", "%s => 1", "quote(%s)", "unquote(%s)",
 			"func(%s) { 1 }(1)", "func() { %s }()", "x = %s; x[0] = x", "-%s + !%s", "%s[%s]", "%s[%s:%s]", "println(%s)", "print(%s, %s)", "error(%s)", "catch(%s)", "len(%s)", "first(%s)", "rest(%s)", "first(rest(%s))",
-			"%s = %s + %s", "for e = %s { for f = e { f } }", "%s[1:]", "%s[:1]", "%s[-1]", "%s[0][0]", "%s.a.b", "[%s][0]", "%s(%s)", "%s((%s))", "(x => x)(%s)"} {
+			"%s = %s + %s", "for e = %s { for f = e { f } }", "%s[1:]", "%s[:1]", "%s[-1]", "vfn(%s[0:1])", "vfn(%s[1:])", "vnamed(%s[0:1], %s[0:2])", "vfn(rest(%s))", "x = %s[0:1]; vfn(x); vfn(x)", "%s[0][0]", "%s.a.b", "[%s][0]", "%s(%s)", "%s((%s))", "(x => x)(%s)"} {
 			if ok = do("unary", prelude, strings.ReplaceAll(f, "%s", a)); !ok {
 				break
 			}
